@@ -107,9 +107,12 @@ Spec == Init /\ [][Next]_vars
 \* every generated successor, so the choice is made inside the action); three
 \* times out of four an operation that succeeds is preferred so that histories
 \* get long enough to make later operations depend on earlier ones
+\* a random element, drawn anew at every evaluation: the set mentions the state because TLC evaluates an expression
+\* without variables once and for all (a walk would repeat one choice for ever)
+Pick(S) == RandomElement(IF Len(hist) >= 0 THEN S ELSE {})
 NextSim ==
-  \E coin \in {RandomElement(1..4)} :
-    \E op \in {RandomElement(IF coin = 1 THEN OpsFor(doc) ELSE LikelyOps(doc))} : Apply(op)
+  \E coin \in {Pick(1..4)} :
+    \E op \in {Pick(IF coin = 1 THEN OpsFor(doc) ELSE LikelyOps(doc))} : Apply(op)
 
 Terminal == IsErr(doc) \/ Len(hist) = MaxOps
 
